@@ -76,6 +76,31 @@ int shim_nlive(void)
     return n;
 }
 
+/* Live blocks that nothing in the library's own static storage leads to.  A block the library keeps on a file-scope free list or in a cache is still
+ * owned by the library and will be reused; it is not a leak.  Conservative marking: every pointer-sized word of the static sections, and of every block
+ * reached so far, that holds an address inside a live block marks that block. */
+static shim_blk *find_at(const void *p, int live, int exact);
+__attribute__((no_sanitize_address)) int shim_nleaked(void)
+{
+    static unsigned char mark[SHIM_MAXBLK]; static int work[SHIM_MAXBLK]; int nw = 0, i, n = 0, r, nsr = shim_nsr < 0 ? 0 : shim_nsr;
+    if (shim_nblk > SHIM_MAXBLK) return shim_nlive();
+    for (i = 0; i < shim_nblk; i++) mark[i] = 0;
+    for (r = 0; r < nsr + nw; r++) {
+        const char *lo; size_t len, k;
+        if (r < nsr) { lo = shim_sr[r].lo; len = shim_sr[r].n; }
+        else { shim_blk *b = &shim_blks[work[r - nsr]]; lo = b->p; len = b->sz; }
+        for (k = 0; k + sizeof(void *) <= len; k += sizeof(void *)) {
+            void *w; shim_blk *t;
+            __builtin_memcpy(&w, lo + k, sizeof w);
+            if (w == NULL) continue;
+            t = find_at(w, 1, 0);
+            if (t != NULL && !mark[t - shim_blks]) { mark[t - shim_blks] = 1; work[nw++] = (int)(t - shim_blks); }
+        }
+    }
+    for (i = 0; i < shim_nblk; i++) n += shim_blks[i].live && !mark[i];
+    return n;
+}
+
 size_t shim_live_bytes(void)
 {
     int i; size_t n = 0;
